@@ -65,6 +65,10 @@ func designated(kind string, bad byte) string {
 		b := []byte(goodVerifier)
 		b[10] = bad
 		return string(b)
+	case "unicode":
+		// letters and digits outside the unreserved (ASCII) set; 43..128 bytes long
+		alts := []string{"\u00e9", "\u0416", "\u03a9", "\uff11", "\u0663", "\u00df"}
+		return goodVerifier[:20] + alts[int(bad)%len(alts)] + goodVerifier[20:50]
 	}
 	return goodVerifier
 }
@@ -98,7 +102,7 @@ func C03(c *run.Ctx) {
 			for tighten := 0; tighten < 3; tighten++ {
 				for _, cl := range []string{"pub-c", "conf-a"} {
 					for _, rt := range []string{"code", "code id_token", "code token", "code id_token token"} {
-						for _, vk := range []string{"good", "short", "long", "badchar"} {
+						for _, vk := range []string{"good", "short", "long", "badchar", "unicode"} {
 							for _, m := range []string{"S256", "plain", "", "s256", "PLAIN", "none"} {
 								if m == "none" && vk != "good" {
 									continue
